@@ -24,7 +24,7 @@ var tmpls = []vlib.Tmpl{
 	vlib.T("types/i8"), vlib.T("types/u64"), vlib.T("types/d3"), vlib.T("types/bool"), vlib.T("types/enu"), vlib.T("types/idr"), vlib.T("types/uni"), vlib.T("types/bin"), vlib.T("types/ll-u8"), vlib.T("types/str"),
 }
 var uni = &vlib.Universe{Name: "dev", Tmpls: tmpls}
-var palette = []string{"eth1", "eth10", "b"}
+var palette = []string{"a", "a/a", "eth1"} // a / a/a: two-key entries whose "/"-joined forms collide
 
 type Perturb struct {
 	Leaf vlib.LeafSel `json:"leaf"`
@@ -49,9 +49,18 @@ func gen(t *rapid.T) *Case {
 		c.Forms = append(c.Forms, rapid.SampledFrom([]string{"typed", "string", "json"}).Draw(t, "form"))
 	}
 	c.Prios = rapid.Permutation([]int{0, 1, 2}).Draw(t, "prios")[:n]
+	collide := rapid.IntRange(0, 5).Draw(t, "colliding-entries") == 2
+	if collide {
+		// two entries of the two-key list whose textual forms collide under a "/"-join: (a, a/a) and (a/a, a)
+		c.Intents[0] = append(c.Intents[0], vlib.LeafSel{T: 9, K: []int{0, 1}, V: rapid.IntRange(0, 2).Draw(t, "cv0")})
+		c.Intents[n-1] = append(c.Intents[n-1], vlib.LeafSel{T: 9, K: []int{1, 0}, V: rapid.IntRange(0, 2).Draw(t, "cv1")})
+	}
 	np := rapid.IntRange(0, 6).Draw(t, "nperturb")
 	for i := 0; i < np; i++ {
 		c.Perturbs = append(c.Perturbs, Perturb{Leaf: vlib.GenLeafSels(t, uni, 1, 1, "pl")[0], Kind: rapid.SampledFrom([]string{"change", "delete", "extra", "extra", "respell"}).Draw(t, "pk")})
+	}
+	if collide {
+		c.Perturbs = append(c.Perturbs, Perturb{Leaf: vlib.LeafSel{T: 9, K: rapid.SampledFrom([][]int{{0, 1}, {1, 0}}).Draw(t, "cdel")}, Kind: "delete"})
 	}
 	return c
 }
